@@ -172,6 +172,7 @@ class Interp:
         self.type_methods = []  # [(predicate, handler(interp, value, attr) -> value | NotHandled)]
         self.name_hooks = []  # [fn(interp, frame, name) -> value | NotHandled]
         self.call_hooks = [_closure_call_hook]  # [fn(interp, callee, args, kwargs) -> value | NotHandled]
+        self.setattr_hooks = []  # [fn(interp, obj, attr, value) -> value]
         self.prune = None  # optional fn(interp, cond) -> True/False/None (feasibility pruning)
         # per path
         self.dec = []
@@ -211,8 +212,9 @@ class Interp:
                     out = ("raise", r.exc)
                 results.append(Path(list(self.pc), out, handles, list(self.assumptions), list(self.asserts)))
             except Fork:
-                work.append(decisions + [False])
-                work.append(decisions + [True])
+                base = list(self.dec[: self.pos])  # includes decisions forced by pruning on this run
+                work.append(base + [False])
+                work.append(base + [True])
         return results
 
     def fresh(self, prefix, sort=None):
@@ -234,8 +236,22 @@ class Interp:
         collected so far)."""
         self.asserts.append((name, list(self.pc), list(self.assumptions), B(f)))
 
+    def fresh_id(self):
+        self.fresh_n += 1
+        return self.fresh_n
+
+    def truth(self, v):
+        """Python truth value incl. __bool__/__len__ of repository objects"""
+        if isinstance(v, Obj):
+            c, m = v.cls.find("__bool__")
+            if m is None:
+                c, m = v.cls.find("__len__")
+            if m is not None and m[0] == "method":
+                v = self.call_function(c.module, m[1], [v], {}, c, v)
+        return truthy(v)
+
     def decide(self, cond):
-        cond = truthy(cond)
+        cond = self.truth(cond)
         if isinstance(cond, bool):
             return cond
         cond = z3.simplify(cond)
@@ -309,7 +325,8 @@ class Interp:
                 raise PyRaise("TypeError", f"missing kw-only argument {p.arg}")
         if a.kwarg is not None:
             if star_kw is not None:
-                env[a.kwarg.arg] = star_kw.with_items(self, kwargs) if kwargs else star_kw
+                # the callee always receives a NEW dict
+                env[a.kwarg.arg] = star_kw.with_items(self, kwargs)
             else:
                 mk = self.builtins.get("__mk_kwargs__")
                 env[a.kwarg.arg] = mk.fn(self, kwargs) if mk else dict(kwargs)
@@ -560,6 +577,8 @@ class Interp:
 
     # ------------------------------------------------------------------ object protocol
     def setattr(self, o, attr, v):
+        for h in self.setattr_hooks:
+            v = h(self, o, attr, v)
         if isinstance(o, Obj):
             o.fields[attr] = v
             return
@@ -576,6 +595,16 @@ class Interp:
         if isinstance(o, Obj):
             if attr in o.fields:
                 return o.fields[attr]
+            cands = getattr(o, "candidates", None)
+            if cands and len(cands) > 1:
+                # class not decided yet: fine as long as every candidate class resolves attr to the same source text
+                found = [self.world.cls(c).find(attr) for c in cands]
+                same = all(f[1] is not None and f[1][0] == "method" for f in found) and len({ast.dump(f[1][1]) for f in found}) == 1
+                kinds = {(attr in f[0].properties, attr in f[0].classmethods) for f in found if f[0] is not None}
+                if not same or len(kinds) != 1:
+                    from .heap import resolve_descr_class
+
+                    resolve_descr_class(self, o)
             if attr == "__class__":
                 return ClassRef(o.cls)
             c, m = o.cls.find(attr)
@@ -850,7 +879,7 @@ class Interp:
     def e_UnaryOp(self, e, fr):
         v = self.ev(e.operand, fr)
         if isinstance(e.op, ast.Not):
-            return Not_(truthy(v))
+            return Not_(self.truth(v))
         if isinstance(e.op, ast.USub):
             if isinstance(v, OI):
                 if self.decide(v.isnone):
@@ -913,7 +942,7 @@ class Interp:
         for i, x in enumerate(vals):
             v = self.ev(x, fr)
             last = i == len(vals) - 1
-            t = truthy(v)
+            t = self.truth(v)
             if isinstance(t, bool):
                 if is_or and t:
                     return v if not acc else Or_(*acc, True)
@@ -1452,6 +1481,8 @@ def _b_isinstance(it, o, c):
         r = o.sym_isinstance(it, c)
         if r is not NotHandled:
             return r
+    if hasattr(c, "sym_instancecheck"):
+        return c.sym_instancecheck(it, o)
     if isinstance(c, ClassRef):
         if isinstance(o, Obj):
             return o.cls.is_subclass_of(c.cls)
